@@ -13,6 +13,8 @@ from .interp import (LESS, EQUAL, GREATER, cmp_scalar, sym_and, sym_or, sym_not,
 
 
 class Models:
+    consts = {}       # constants of external crates: name (full or last segment) -> value
+
     def __init__(self):
         self.table = {}
         self.used = {}
@@ -58,6 +60,10 @@ class Models:
             return Opaque('strum::ParseError')
         if raw.startswith('PhantomData'):
             return UNIT
+        if raw in self.consts:
+            return self.consts[raw]
+        if segs[-1] in self.consts:
+            return self.consts[segs[-1]]
         return None
 
 
@@ -1872,8 +1878,75 @@ def _fmt_arguments(I, a, ci, dt):
     return Opaque('fmtargs', tuple(a))
 
 
+def render_arguments(I, args):
+    """Text of a fmt::Arguments built by `Arguments::new(template, args)` (the compact template of
+    current rustc: length-prefixed literal pieces, 0xC0 = next argument with default options, 0 = end)
+    when every argument is a Display of a string / char-free integer; None otherwise (text stays opaque)."""
+    if not (isinstance(args, Opaque) and args.tag == 'fmtargs'):
+        return None
+    d = args.data
+    if len(d) == 1:
+        t = d[0]
+        t = I.deref_value(t) if isinstance(t, Ref) else t
+        if isinstance(t, (SStr, SString)):
+            return tuple(t.b)
+        return None
+    if len(d) != 2:
+        return None
+    tmpl = I.deref_value(d[0]) if isinstance(d[0], Ref) else d[0]
+    argv = I.deref_value(d[1]) if isinstance(d[1], Ref) else d[1]
+    if isinstance(tmpl, SStr):
+        tb = tmpl.b
+    elif isinstance(tmpl, VecVal):
+        tb = tmpl.items
+    else:
+        return None
+    if not isinstance(argv, VecVal) or not all(isinstance(x, int) for x in tb):
+        return None
+    out = []
+    i = 0
+    k = 0
+    while i < len(tb):
+        n = tb[i]
+        i += 1
+        if n == 0:
+            break
+        if n < 0x80:
+            out.extend(tb[i:i + n])
+            i += n
+        elif n == 0x80:
+            ln = tb[i] | (tb[i + 1] << 8)
+            i += 2
+            out.extend(tb[i:i + ln])
+            i += ln
+        elif n == 0xC0:
+            if k >= len(argv.items):
+                return None
+            a = argv.items[k]
+            k += 1
+            if not (isinstance(a, Opaque) and a.tag == 'fmtarg'):
+                return None
+            v = a.data
+            while isinstance(v, Ref):
+                v = I.load(v)
+            if isinstance(v, (SStr, SString)):
+                out.extend(v.b)
+            elif isinstance(v, int) and not isinstance(v, bool):
+                out.extend(str(v).encode())
+            else:
+                return None
+        else:
+            return None
+    return tuple(out)
+
+
 @reg('fmt::format', 'format')
 def _fmt_format(I, a, ci, dt):
+    import os
+    if os.environ.get('VERIF_RENDER_FMT', '1') != '0':
+        b = render_arguments(I, a[0])
+        if b is not None:
+            return SString(b, I.new_alloc())
     return Opaque('formatted', a[0])
 
 
